@@ -95,6 +95,23 @@ func dispHistCfgs(prop, tier string) []*histCfg {
 	out = append(out, &histCfg{Name: prop + "-hist/churn", Spec: dispSpec(false), Depth: churnDepth, Final: dispFinal, Oracle: dispOracle(prop),
 		AutoGet: &Op{Kind: "get", T: "D2"}, AlphaFn: churnAlphabet})
 	if prop == "C10" {
+		// a multi-output constructor (result object / multiple returns / result object with error) whose
+		// SECOND output is nil on its first invocation: the constructor runs again for that output and
+		// re-creates the first one - both copies were created by the container and must be closed
+		for _, form := range []string{"resobj", "multi"} {
+			for _, life := range []string{"scoped", "transient", "singleton"} {
+				r0 := kit.Reg{ID: 0, Life: life, Err: true, ResObj: form == "resobj", Outs: []kit.Out{{T: "D0"}, {T: "D1"}}}
+				spec := kit.Spec{Regs: []kit.Reg{r0,
+					{ID: 1, Life: "scoped", Outs: []kit.Out{{T: "D2"}}, Deps: []kit.Dep{{T: "D0"}}},
+					{ID: 2, Life: "scoped", In: true, Outs: []kit.Out{{T: "D3"}}, Deps: []kit.Dep{{T: "D1", Opt: true}, {T: "D0"}}}}}
+				if life == "singleton" {
+					spec.Regs = spec.Regs[:1]
+				}
+				out = append(out, &histCfg{Name: fmt.Sprintf("%s-hist/partial-nil-%s-%s", prop, form, life), Spec: spec,
+					Faults: map[string]string{"0:1": "nil:1"}, Probes: []Op{{Kind: "get", T: "D0"}, {Kind: "get", T: "D1"}, {Kind: "get", T: "D2"}, {Kind: "get", T: "D3"}}, MaxScopes: 2, Depth: depth - 1,
+					CtxKinds: []string{""}, Final: dispFinal, Oracle: dispOracle(prop)})
+			}
+		}
 		// fault positions: every constructor, invocation 1..3, error / panic / nil
 		fd := depth - 2
 		for _, reg := range []int{0, 1, 2, 3, 4, 5, 6, 7, 8, 9} {
@@ -170,7 +187,7 @@ func registerDisp(prop, rule string) {
 }
 
 func init() {
-	registerDisp("C10", "histories: every sequence to depth 5 (quick) / 6 (thorough) over {CreateScope(provider|scope), resolutions of scoped / transient / second output of a two-output constructor / disposables registered under interface types without Close (alias, interface-typed return) / singleton, Close(scope|provider), cancel} on <=3 scopes of an all-disposable container (with and without scope initializers), completed by closing the provider; fault positions: every constructor x invocation 1..2(3) x {returns error, panics} during Build, scope creation and resolution, over every history to depth 3/4; schedules: Resolve||Close(scope), Resolve||cancel, Resolve||Close(provider), CreateScope-with-initializers||Close, all schedules with <=2/3 preemptions. Oracle at the end of every execution: every container-created disposable closed exactly once, not before a Close/cancel of its owner, an ancestor or the provider started (or the creation that made it failed); non-disposables untouched. An outcome is the canonical observation string of one execution.")
+	registerDisp("C10", "histories: every sequence to depth 5 (quick) / 6 (thorough) over {CreateScope(provider|scope), resolutions of scoped / transient / second output of a two-output constructor / disposables registered under interface types without Close (alias, interface-typed return) / singleton, Close(scope|provider), cancel} on <=3 scopes of an all-disposable container (with and without scope initializers), completed by closing the provider; multi-output constructors (result object / multiple returns; scoped, transient, singleton) whose second output is nil on the first invocation, so that a later request re-runs the constructor and re-creates the first output; fault positions: every constructor x invocation 1..2(3) x {returns error, panics} during Build, scope creation and resolution, over every history to depth 3/4; schedules: Resolve||Close(scope), Resolve||cancel, Resolve||Close(provider), CreateScope-with-initializers||Close, all schedules with <=2/3 preemptions. Oracle at the end of every execution: every container-created disposable closed exactly once, not before a Close/cancel of its owner, an ancestor or the provider started (or the creation that made it failed); non-disposables untouched. An outcome is the canonical observation string of one execution.")
 	registerDisp("C11", "same histories as C10 without faults; oracle on the global stamp sequence: within one owner (each scope; the singleton set) close order is exactly reverse creation order; every close in a descendant scope precedes every own-instance close of its ancestor; every scope-owned close (root scope included) precedes every singleton close; no disposable is closed while a still-open established disposable that received it exists. The property quantifies over configurations and histories; beyond it, the last clause (the stated consequence) is also checked on every schedule (bound 2/3) of the C10 overlap scenarios Resolve||Close(scope|provider), Resolve||cancel, CreateScope-with-initializers||Close, where 'established' means that the operation which constructed the instance completed successfully, or a completed operation handed it out - late arrivals the container refuses and disposes itself are not ordered.")
 	mc.Register(&mc.Check{
 		Prop: "C12", MinOutcomes: 10,
